@@ -469,17 +469,25 @@ def c14(ctx):
         d = os.path.join(ctx.scratch, "fsa-%d" % i)
         os.makedirs(d, exist_ok=True)
         log = os.path.join(ctx.scratch, "fsa-%d.strace" % i)
-        cmd = ["strace", "-f", "-y", "-s", "80", "-e", "trace=write,pwrite64,fsync,fdatasync,rename,renameat,renameat2,"
-               "unlink,unlinkat,openat", "-o", log, drv, "fsaudit", "-dir", d, "-seed", str(ctx.seed * 10 + i), "-n", "40"]
-        p = subprocess.run(cmd, env=common.go_env(), stdout=subprocess.PIPE, stderr=subprocess.STDOUT, text=True, timeout=600)
-        if p.returncode != 0:
-            hf = common.hard_failures(p.stdout)
-            if hf:
-                rp = ctx.save_replay("c14-fsaudit-%s-%d.txt" % (hf[0][0], i), [hf[0][1]])
-                ctx.violation(rp, "%s during the fsync audit workload: %s" % hf[0], match={"kind": hf[0][0]})
-                return 0
-            raise Machinery("fsaudit under strace failed: " + p.stdout[-1500:])
-        ev = straceparse.parse(log, d)
+        ev = []
+        for phase in (1, 2):
+            plog = "%s.%d" % (log, phase)
+            cmd = ["strace", "-f", "-y", "-s", "80", "-e", "trace=write,pwrite64,fsync,fdatasync,rename,renameat,renameat2,"
+                   "unlink,unlinkat,openat", "-o", plog, drv, "fsaudit", "-dir", d, "-seed", str(ctx.seed * 10 + i),
+                   "-n", "20", "-phase", str(phase)]
+            p = subprocess.run(cmd, env=common.go_env(), stdout=subprocess.PIPE, stderr=subprocess.STDOUT, text=True,
+                               timeout=600)
+            if p.returncode != 0:
+                hf = common.hard_failures(p.stdout)
+                if hf:
+                    rp = ctx.save_replay("c14-fsaudit-%s-%d.txt" % (hf[0][0], i), [hf[0][1]])
+                    ctx.violation(rp, "%s during the fsync audit workload (phase %d): %s" % (hf[0][0], phase, hf[0][1]),
+                                  match={"kind": hf[0][0]})
+                    return 0
+                raise Machinery("fsaudit under strace failed: " + p.stdout[-1500:])
+            ev += straceparse.parse(plog, d)
+            with open(log, "a") as fh:
+                fh.write(open(plog).read())
         if sum(1 for e in ev if e["ev"] == "fsync") == 0 and sum(1 for e in ev if e["ev"] == "ack") == 0:
             raise Machinery("strace log has no fsync/ack events: tracing does not work here")
         tp = os.path.join(ctx.scratch, "fsa-%d.ndjson" % i)
